@@ -181,6 +181,13 @@ var verifDrawLog []vDrawRec
 
 func vDrawCount() int { return len(verifDrawLog) }
 
+// vDrawLimit natively: the draw observer fails the run when more than n further
+// bounded draws are made.
+var vDrawMax = -1
+var vDrawMaxMsg string
+
+func vDrawLimit(n int, msg string) { vDrawMax, vDrawMaxMsg = len(verifDrawLog)+n, msg }
+
 // vDraw natively: the word at the tape position where the i-th bounded draw
 // started, reduced by that draw's bound (engine-made tapes hold the accepted
 // value itself there).
@@ -335,7 +342,13 @@ func TestVerifReplay(t *testing.T) {
 	say := vSayf
 	log.SetOutput(&vLogBuf)
 	verifDrawLog = nil
-	verifDrawHook = func(n uint32) { verifDrawLog = append(verifDrawLog, vDrawRec{n, vTapePos}) }
+	verifDrawHook = func(n uint32) {
+		if vDrawMax >= 0 && len(verifDrawLog) >= vDrawMax {
+			vDrawMax = -1
+			panic(vAssertFailed{vDrawMaxMsg})
+		}
+		verifDrawLog = append(verifDrawLog, vDrawRec{n, vTapePos})
+	}
 	defer func() { verifDrawHook = nil }()
 	result := "passed"
 	runs := vRF.Repeat
@@ -350,6 +363,7 @@ func TestVerifReplay(t *testing.T) {
 		vTapePos, vReadCnt, vFaultRd, vFaultWas, vPadded = 0, 0, -1, false, 0
 		verifDrawLog = nil
 		vSecrets, vShort, vLastPan = nil, false, ""
+		vDrawMax = -1
 		vLogBuf.Reset()
 		for _, f := range []*os.File{vOutFile, vErrFile} {
 			if f != nil {
